@@ -134,4 +134,11 @@ var props = []Prop{
 		Bounds:  "m types registered before the first tables exist and n in total, (m, n) over all pairs from the boundary set {0,1,15,16,17,63,64,65,128,192,239,240,241,255,256} (tiny: {0,1,15,16,17,31,32,33,47,48,49,62,63,64}) with m <= n; a component id j from the same set (j < n) is used on a table created before its registration and on tables created after it: Has/Get on old tables (out-of-block unsafe reads are violations), NewEntity, write/read through Get, Add to / Remove from entities of old tables, query; registry: dense ids in order, ComponentIDs/ComponentInfo consistent, same type same id, unregistered id reported false; at the limit one more registration panics and changes nothing; shapes: Relation embedded first / later / as named field / by pointer / alone / non-struct, resource registry independent, registration refused under lock is rolled back completely; capacity increments 1..2",
 		Outside: "values of m, n, j between the boundary values (the chunk arithmetic is piecewise uniform between multiples of 16 and 64)",
 	},
+	{
+		ID: "C18",
+		Harnesses: append(hs("generic", false, 2, "HC18_Arity1", "HC18_Arity2", "HC18_Arity3", "HC18_Arity4", "HC18_Arity5", "HC18_Arity6", "HC18_Arity7", "HC18_Arity8", "HC18_Arity9", "HC18_Arity10", "HC18_Arity11", "HC18_Arity12", "HC18_MapExchange", "HC18_TwoQueries"), H{Pkg: "generic", Fn: "HC18_Builders"}, H{Pkg: "generic", Fn: "HC18_Builders", Tags: "tiny", Tier: "thorough"}, H{Pkg: "generic", Fn: "HC18_Arity12", Tags: "tiny", W: 2}),
+		Conform: []H{{Pkg: "ecs", Fn: "HSmoke"}},
+		Bounds:  "every arity 1..12 (harnesses generated from one template like the library): MapN.New / NewWith (symbolic values) / Assign / Add / Remove / NewBatch / NewBatchQ / AddBatchQ / RemoveBatch and FilterN.Query (unregistered and registered) - every Get position is compared by pointer identity with World.Get of the declared component, selections with the equivalent core filter; Optional at a symbolically chosen position (nil for the absent component); component ids offset by 0 / 14 / 60 fillers (chunk and word boundaries); builder sequences: 3 (thorough 4) symbolic steps out of With / Without / Optional / Exclusive / WithRelation (open or fixed target) / use (with or without runtime target) / register-unregister on Filter0, Filter1, Filter2 followed by a final use, against a set-theoretic model of the configuration at query time on a 9-entity world; Map[T], relation-aware Map2 and Exchange against the core calls; two simultaneously open queries with different runtime targets (known finding)",
+		Outside: "arity 0 beyond Filter0/Query0 in the builder harness; builder sequences longer than 4 steps; generic.Resource is decided in C20",
+	},
 }
